@@ -1,6 +1,6 @@
 /* vclock.c — virtual clock for the daemon under test, linked with -Wl,--wrap=time.
-   time() reads a little-endian int64 from the file named by VERIF_CLOCK_FILE (mmap'd once);
-   value 0 means "use the real clock". */
+   time() reads a little-endian int64 from the file named by VERIF_CLOCK_FILE (mmap'd once, before any
+   thread exists); value 0 means "use the real clock". */
 #include <fcntl.h>
 #include <stdint.h>
 #include <stdlib.h>
@@ -9,24 +9,24 @@
 #include <unistd.h>
 time_t __real_time(time_t *t);
 static volatile int64_t *vclk;
-static int vclk_tried;
-time_t __wrap_time(time_t *t) {
-    if (!vclk_tried) {
-        const char *p = getenv("VERIF_CLOCK_FILE");
-        vclk_tried = 1;
-        if (p) {
-            int fd = open(p, O_RDONLY);
-            if (fd >= 0) {
-                void *m = mmap(NULL, 8, PROT_READ, MAP_SHARED, fd, 0);
-                if (m != MAP_FAILED) vclk = (volatile int64_t *) m;
-                close(fd);
-            }
+__attribute__((constructor)) static void vclk_init(void) {
+    const char *p = getenv("VERIF_CLOCK_FILE");
+    if (p) {
+        int fd = open(p, O_RDONLY);
+        if (fd >= 0) {
+            void *m = mmap(NULL, 8, PROT_READ, MAP_SHARED, fd, 0);
+            if (m != MAP_FAILED) vclk = (volatile int64_t *) m;
+            close(fd);
         }
     }
-    if (vclk && *vclk != 0) {
-        time_t v = (time_t) *vclk;
-        if (t) *t = v;
-        return v;
+}
+time_t __wrap_time(time_t *t) {
+    if (vclk) {
+        int64_t v = __atomic_load_n(vclk, __ATOMIC_RELAXED);
+        if (v != 0) {
+            if (t) *t = (time_t) v;
+            return (time_t) v;
+        }
     }
     return __real_time(t);
 }
